@@ -9,6 +9,7 @@ import (
 	"os"
 	"path/filepath"
 	"regexp"
+	"runtime/debug"
 	"strings"
 	"testing"
 	"testing/synctest"
@@ -140,16 +141,21 @@ type e1Run struct {
 	step      int
 	prop      string
 	model     *obsModel
+	shadow    map[int]*obsModel // per faulted replica (e1ShadowProps)
+	ctx       string
 	// expected configuration in force (C16): tracked from accepted Config entries
-	cfgRev  uint64
-	stopped   bool
-	offset    uint64
-	toleratedOwn int
+	cfgRev                            uint64
+	stopped                           bool
+	offset                            uint64
+	toleratedOwn                      int
 	prevLineSession, prevOtherSession uint64
 }
 
+// e1ShadowProps: checks whose per-entry validators also run on the faulted replicas.
+var e1ShadowProps = map[string]bool{"C12": true, "C13": true, "C14": true, "C15": true, "C17": true}
+
 func (r *e1Run) violate(prop, class, sig, detail string) {
-	r.res.Violate(prop, class, sig, fmt.Sprintf("step %d: %s", r.step, detail), r.step)
+	r.res.Violate(prop, class, sig, fmt.Sprintf("step %d: %s%s", r.step, r.ctx, detail), r.step)
 }
 
 // tolerate records a violation that is a listed known finding without ending the run.
@@ -207,7 +213,7 @@ func (r *e1Run) applyOn(n *e1Node, cnt int) {
 			return
 		}
 		before := (*ircserver.VerifPrivState)(nil)
-		if n.idx == 0 && e.Msg != nil {
+		if (n.idx == 0 || e1ShadowProps[r.prop]) && e.Msg != nil {
 			before = ircserver.VerifPriv(n.irc)
 		}
 		if e.Msg != nil && r.canonRet[e.Index] == "" {
@@ -326,6 +332,20 @@ func (r *e1Run) afterApply(n *e1Node, e *logEntry, o applyOutcome, before *ircse
 		}
 		if len(outs) > 0 {
 			r.res.Add("outputs_compared", 1)
+		}
+		// the per-entry validators also judge what a lagging, restarted, restored or re-loaded replica does
+		// with the entry (its own state before, its own outputs, its own state after)
+		if n.idx != 0 && before != nil && e1ShadowProps[r.prop] {
+			if r.shadow == nil {
+				r.shadow = map[int]*obsModel{}
+			}
+			if r.shadow[n.idx] == nil {
+				r.shadow[n.idx] = newObsModel(r)
+			}
+			r.ctx = fmt.Sprintf("[judged on node %d: restored=%v, cycled=%v, snapshots=%d, incarnation=%d] ", n.idx, n.restored, n.cycled, n.snapCount, n.inc)
+			r.shadow[n.idx].observe(n, e, outs, before)
+			r.ctx = ""
+			r.res.Add("entries_judged_on_faulted_replicas", 1)
 		}
 		return
 	}
@@ -541,7 +561,7 @@ func e1Execute(sc *e1Scenario, prop string, res *core.Result) error {
 			break
 		}
 		r.step = si
-		r.execStep(st)
+		r.safeStep(st)
 	}
 	if !r.stopped && !r.fatal() && res.Inconclusive == "" {
 		r.step = len(sc.Steps)
@@ -598,6 +618,57 @@ func (r *e1Run) nontrivial() bool {
 	default: // C01
 		return s["outputs_compared"] >= 10 && s["multi_recipient_outputs"] >= 1
 	}
+}
+
+// safeStep: FSM.Apply panics are handled where entries are applied (C06). A panic anywhere else in the
+// code under test (Snapshot, Persist, Restore, the stores) would end the real process in the same way;
+// it is reported instead of taking the worker down. A panic raised by harness code is re-raised.
+func (r *e1Run) safeStep(st e1Step) {
+	defer func() {
+		p := recover()
+		if p == nil {
+			return
+		}
+		stack := string(debug.Stack())
+		site, production := firstRepoFrame(stack)
+		if !production {
+			panic(p)
+		}
+		prop := "C02"
+		if st.K == "cycle" {
+			prop = "C03"
+		}
+		r.violate(prop, "panic-outside-apply", "panic-outside-apply:"+site, fmt.Sprintf("step %q: the code under test panicked outside FSM.Apply (the node process would die): %v\n%s", st.K, p, firstLinesOf(stack, 40)))
+		r.stopped = true
+	}()
+	r.execStep(st)
+}
+
+// firstRepoFrame finds, below the runtime's panic frame, the first frame that belongs to the repository
+// and says whether it is production code (true) or a harness file mapped in by overlay (false).
+func firstRepoFrame(stack string) (string, bool) {
+	i := strings.Index(stack, "\npanic(")
+	if i < 0 {
+		return "?", false
+	}
+	lines := strings.Split(stack[i+1:], "\n")
+	for k := 0; k+1 < len(lines); k += 2 {
+		fn, file := lines[k], strings.TrimSpace(lines[k+1])
+		if !strings.HasPrefix(fn, "github.com/robustirc/robustirc") {
+			continue
+		}
+		if strings.Contains(file, "zz_verif_") || strings.Contains(fn, "verifsim") || strings.Contains(fn, ".Verif") {
+			return "", false
+		}
+		name := fn
+		if j := strings.LastIndex(name, "("); j > 0 {
+			name = name[:j]
+		}
+		name = strings.TrimPrefix(name, "github.com/robustirc/robustirc/internal/")
+		name = strings.TrimPrefix(name, "github.com/robustirc/")
+		return name, true
+	}
+	return "?", false
 }
 
 func (r *e1Run) execStep(st e1Step) {
